@@ -22,6 +22,18 @@ for d in sorted(glob.glob(os.path.join(ROOT, "seeded", "*"))):
         return str(x).replace("|", "/").replace("\n", " ")[:330]
     S.append("| %s | %s | %s | %s | %s |" % (os.path.basename(d), m.get("property"), cell(m.get("summary", "")), cell(m.get("needs", "")), cell(m.get("detected_by", ""))))
 seeded = "\n".join(S)
+import importlib, sys
+sys.path.insert(0, ROOT)
+P = []
+for fn in sorted(os.listdir(os.path.join(ROOT, "checks"))):
+    if not (fn.startswith("c") and fn.endswith(".py")):
+        continue
+    m = importlib.import_module("checks." + fn[:-3])
+    pid = fn[:-3].upper()
+    P.append(f"**{pid}** — {len(m.THEOREMS)} audited theorems/obligations; targets `{' '.join(m.TARGETS)}`; "
+             f"translators: {', '.join(getattr(m, 'TRANSLATORS', [])) or '—'}.\n\n"
+             f"*Claim.* {m.LEVEL_TEXT}\n\n*Trusted / assumed.* {m.LEVEL_NOTE}\n")
+perprop = "\n".join(P)
 p = os.path.join(ROOT, "DESIGN.md")
 s = open(p).read()
 def put(s, tag, body):
@@ -29,5 +41,6 @@ def put(s, tag, body):
     return re.sub(re.escape(a) + ".*?" + re.escape(b), a + "\n" + body + "\n" + b, s, flags=re.S)
 s = put(s, "findings", findings)
 s = put(s, "seeded", seeded)
+s = put(s, "perprop", perprop)
 open(p, "w").write(s)
 print("ok")
